@@ -1015,4 +1015,41 @@ example :
         [(⟨.disabled, false, true⟩, [], none), (⟨.disabled, true, true⟩, ["x"], some [])])
       [] none).1.converted = true := by decide
 
+/-! ## 6. Threads -/
+
+/-- **The policy's `status` input is per thread.**  With the storage extracted from `ag_ctx` (a plain `threading.local()` whose stack
+is created lazily per thread), a region entered or left by another thread never changes the status a thread reads. -/
+theorem C13_policy_reads_own_thread_status (s : Stacks) (t u : Nat) (st : CtxStatus) (h : t ≠ u) :
+    currentStatus (s.enter u st) t = currentStatus s t ∧ currentStatus (s.leave u) t = currentStatus s t := by
+  simp [currentStatus, Stacks.enter, Stacks.leave, stackOwner, ctxStorage, h]
+
+/-- Whatever sequence of context regions OTHER threads enter and leave, a wrapped call of thread `t` has exactly the effect
+(decision, binding, warning, remembered state) it has without them. -/
+theorem C13_other_threads_never_change_the_decision {α} (s : Stacks) (t : Nat) (es : List CtxEvent)
+    (h : ∀ e ∈ es, e.1 ≠ t) (strict insp : Bool) (o : Opts) (c : Callable α) (args : List α) (kw : Option (Kw α)) :
+    call ⟨currentStatus (s.apply es) t, strict, insp⟩ o c args kw = call ⟨currentStatus s t, strict, insp⟩ o c args kw := by
+  have : currentStatus (s.apply es) t = currentStatus s t := by
+    induction es generalizing s with
+    | nil => rfl
+    | cons e rest ih =>
+      obtain ⟨u, ost⟩ := e
+      have hu : t ≠ u := fun e' => h (u, ost) (by simp) e'.symm
+      have hrest : ∀ e ∈ rest, e.1 ≠ t := fun e he => h e (by simp [he])
+      cases ost with
+      | none =>
+        simp only [Stacks.apply]
+        rw [ih _ hrest, (C13_policy_reads_own_thread_status s t u .unspecified hu).2]
+      | some st =>
+        simp only [Stacks.apply]
+        rw [ih _ hrest, (C13_policy_reads_own_thread_status s t u st hu).1]
+  rw [this]
+
+/-- a fresh thread starts from the default (UNSPECIFIED) context whatever the others are in -/
+theorem C13_fresh_thread_default (s : Stacks) (t : Nat) (h : s t = []) : currentStatus s t = .unspecified := by
+  simp [currentStatus, stackOwner, ctxStorage, h, ctxDefaultIsUnspecified]
+
+/-! Non-vacuity: thread 1 is inside a DISABLED region, thread 2 still reads the default status. -/
+example : currentStatus (Stacks.enter (fun _ => []) 1 .disabled) 2 = .unspecified := by decide
+example : currentStatus (Stacks.enter (fun _ => []) 1 .disabled) 1 = .disabled := by decide
+
 end Malt.Policy
